@@ -1,5 +1,6 @@
 import SJ.Proofs.Pipeline
 import SJ.Generated.Consts
+import SJ.Generated.GoFacts
 /-
 C07 — The concurrent two-stage pipeline is schedule-independent.
 Property theorems only; helper lemmas live in SJ/Proofs/Pipeline.lean.
@@ -32,6 +33,18 @@ theorem C07_repo_constants : repoCfg.cap + 2 ≤ repoCfg.slots := by decide
 /-- A buffer is closed once it holds `indexSizeWithSafetyBuffer` entries; one more block adds at most 64 and
     the tail block another 64, so the assembly's unchecked stores stay inside the slot. -/
 theorem C07_buffer_bound : cindexSizeWithSafetyBuffer + 64 + 64 ≤ cindexSize := by decide
+
+/-- The transition system lets the producer write only into the slot it acquired. In the source (regenerated):
+    the ring `buffers` is mentioned exactly once, at the acquire (`&pj.buffers[offset%indexSlots]`, after the one
+    increment of `buffersOffset`), so every store of stage 1 goes through that pointer; the channel is touched by
+    the two sends of stage 1, the receive of `updateChar`, and set-up and draining in `parseMessage`. -/
+theorem C07_ring_sites :
+    ringRefs = ["internalParsedJson.findStructuralIndices:buffersOffset", "internalParsedJson.findStructuralIndices:buffers",
+      "internalParsedJson.findStructuralIndices:indexChans", "internalParsedJson.findStructuralIndices:indexChans",
+      "internalParsedJson.parseMessage:indexChans", "internalParsedJson.parseMessage:indexChans",
+      "internalParsedJson.parseMessage:buffersOffset", "internalParsedJson.parseMessage:indexChans",
+      "internalParsedJson.parseMessage:indexChans", "internalParsedJson.parseMessage:indexChans",
+      "updateChar:indexChans", "updateCharDebug:indexChans"] := by decide
 
 /-- The premise is tight: with one slot fewer in reserve there is a schedule that overwrites the buffer the
     consumer is reading. -/
